@@ -202,6 +202,7 @@ func (b *Bundle) recompiler(reg *template.Registry) {
 			for _, soyfile := range b.files {
 				bundle.AddTemplateFile(soyfile.name)
 			}
+			bundle.parsepasses = b.parsepasses
 			var registry, err = bundle.Compile()
 			if err != nil {
 				Logger.Println(err)
